@@ -35,6 +35,15 @@
 //! plus a family with a port that really refuses (bound, not listening) where the
 //! attempts cannot be seen but the result and the total time can.
 //!
+//! Family L (`L-several-pending-local`) runs the client with TWO TCP remotes (two local ports, both forwarded to
+//! the same target) and opens k = 2 (one per remote) or k = 3 (two on the first remote, one on the second) local
+//! connections at once while the tunnel is down (during / right after the first attempt, which is `reset` or
+//! `stall`), each with its own payload: several stream requests are queued in the client when the next
+//! connection comes up, and that connection fails while the first of them is being served (`mute`: the request
+//! is never acknowledged; `close0` / `close300` / `drop`: the connection ends right after the handshake), once or
+//! twice, before a healthy server appears.  Every one of the k connections must get exactly its own payload back
+//! through the healthy connection, and the client must still be running.
+//!
 //! The oracle is written from the property statement: a little model of the retry
 //! rule (`model`) gives, per script, the expected number of attempts, the delay
 //! class before every attempt and the way the client must end.  Lower bounds on gaps
@@ -215,12 +224,16 @@ struct Scenario {
     /// the client also has a UDP remote, and this many datagrams are sent to it right after the first attempt has
     /// failed, i.e. while the tunnel is down and nothing drains the client's datagram queue (0: no UDP remote)
     udp_flood: usize,
+    /// family L: the client has a second TCP remote, and this many local connections (2: one per remote; 3: two on the
+    /// first remote, one on the second) are opened at once, each sending its own payload, while the first attempt of
+    /// the script is failing / has just failed, i.e. while the tunnel is down (0: one TCP remote, nothing of the kind)
+    several: usize,
 }
 
 impl Scenario {
     /// everything the scenarios of families A-D have in common
     fn plain() -> Self {
-        Self { kind: Kind::Script, family: "", script: Vec::new(), n: 0, cap_ms: 300, down_at: None, outage_ms: 0, ka: None, wss: false, hs_ms: HS_TIMEOUT_MS, open_end: false, abortive: false, udp_flood: 0 }
+        Self { kind: Kind::Script, family: "", script: Vec::new(), n: 0, cap_ms: 300, down_at: None, outage_ms: 0, ka: None, wss: false, hs_ms: HS_TIMEOUT_MS, open_end: false, abortive: false, udp_flood: 0, several: 0 }
     }
     fn steps(&self) -> Option<Vec<Step>> {
         model_x(&self.script, self.n, self.cap_ms, self.ka.is_some(), self.open_end)
@@ -232,7 +245,7 @@ impl Scenario {
         (i, t.max(i))
     }
     fn client_cfg(&self, sport: u16, lport: u16, udp_lport: Option<u16>) -> net::ClientCfg {
-        net::ClientCfg { sport, lport, max_retry_count: self.n, max_retry_interval_ms: self.cap_ms, keepalive_ms: self.ka, wss: self.wss, handshake_timeout_ms: self.hs_ms, channel_timeout_ms: CH_TIMEOUT_MS, udp_lport }
+        net::ClientCfg { sport, lport, max_retry_count: self.n, max_retry_interval_ms: self.cap_ms, keepalive_ms: self.ka, wss: self.wss, handshake_timeout_ms: self.hs_ms, channel_timeout_ms: CH_TIMEOUT_MS, udp_lport, lport2: None }
     }
     fn to_json(&self) -> Value {
         json!({
@@ -250,6 +263,7 @@ impl Scenario {
             "observed_until_end_of_script_only": self.open_end,
             "drop_is_tcp_reset": self.abortive,
             "udp_datagrams_during_first_outage": self.udp_flood,
+            "local_connections_at_once_during_first_outage_on_two_tcp_remotes": self.several,
         })
     }
     fn from_json(v: &Value) -> Result<Self, String> {
@@ -277,6 +291,10 @@ impl Scenario {
             open_end: v["observed_until_end_of_script_only"].as_bool().unwrap_or(false),
             abortive: v["drop_is_tcp_reset"].as_bool().unwrap_or(false),
             udp_flood: v["udp_datagrams_during_first_outage"].as_u64().unwrap_or(0) as usize,
+            several: match v["local_connections_at_once_during_first_outage_on_two_tcp_remotes"].as_u64().unwrap_or(0) {
+                k @ (0 | 2 | 3) => k as usize,
+                k => return Err(format!("local_connections_at_once_during_first_outage_on_two_tcp_remotes: {k} (0, 2 or 3)")),
+            },
         })
     }
     fn ident(&self) -> String {
@@ -306,6 +324,9 @@ impl Scenario {
         }
         if self.udp_flood > 0 {
             s += &format!(" udp-remote+{}-datagrams-during-the-first-outage", self.udp_flood);
+        }
+        if self.several > 0 {
+            s += &format!(" two-tcp-remotes+{}-local-connections-at-once-during-the-first-outage", self.several);
         }
         if self.wss || self.hs_ms != HS_TIMEOUT_MS {
             s += &format!(" handshake_timeout={}ms", self.hs_ms);
@@ -712,6 +733,45 @@ fn build_matrix(thorough: bool) -> (Vec<Scenario>, Bounds) {
         v.push(Scenario { hs_ms: 800, ..kf(vec![ts, tc, tc], 2, 300_000, None) });
         v.push(Scenario { hs_ms: 800, ..kf(vec![tc, ts, tc], 0, 300_000, None) });
     }
+    // L: SEVERAL local connections are pending at once (two TCP remotes; k = 2: one connection per remote, k = 3: two
+    // on the first remote and one on the second), opened while the tunnel is down (first attempt: `reset` / `stall`);
+    // the next connection(s) fail while the first queued stream request is being served (`mute`: never acknowledged,
+    // the channel timeout fires; `close0` / `close300` / `drop`: the connection ends after the handshake); then a
+    // healthy server.  Every script [d] ++ [f]{1..2} ++ [healthy]; max_retry_count = 0 so that no give-up rule
+    // interferes.  On the pinned client the request that was being served is parked and tried first on the next
+    // connection, the others stay in the queue (or in the listener's backlog): all k are served by the healthy
+    // connection, for every script of this alphabet (none had to be left out).
+    let lf = |d: Beh, fs: &[Beh], k: usize| {
+        let mut script = vec![d];
+        script.extend_from_slice(fs);
+        script.push(Beh::Healthy);
+        Scenario { family: "L-several-pending-local", script, n: 0, cap_ms: 300, several: k, ..Scenario::plain() }
+    };
+    let down_l = [Beh::Reset, Beh::Stall];
+    let fail_l = [Beh::Mute, Beh::Close0, Beh::Close300, Beh::Drop];
+    if thorough {
+        for &d in &down_l {
+            for k in [2usize, 3] {
+                for &f1 in &fail_l {
+                    v.push(lf(d, &[f1], k));
+                    for &f2 in &fail_l {
+                        v.push(lf(d, &[f1, f2], k));
+                    }
+                }
+            }
+        }
+    } else {
+        for &f in &fail_l {
+            v.push(lf(Beh::Reset, &[f], 2));
+        }
+        v.push(lf(Beh::Stall, &[Beh::Mute], 2));
+        v.push(lf(Beh::Stall, &[Beh::Close0], 2));
+        v.push(lf(Beh::Reset, &[Beh::Mute], 3));
+        v.push(lf(Beh::Reset, &[Beh::Close0], 3));
+        v.push(lf(Beh::Stall, &[Beh::Drop], 3));
+        v.push(lf(Beh::Reset, &[Beh::Mute, Beh::Close0], 2));
+        v.push(lf(Beh::Reset, &[Beh::Drop, Beh::Mute], 3));
+    }
     for sc in &v {
         if sc.kind == Kind::Script {
             assert!(sc.steps().is_some(), "matrix contains an incomplete history: {}", sc.short());
@@ -748,6 +808,8 @@ struct Quiet {
 #[derive(Clone, Debug)]
 struct LocalSummary {
     origin: &'static str,
+    /// which TCP remote of the client (0 / 1)
+    remote: usize,
     through_mute: bool,
     open_before_ms: f64,
     result: Option<LocalRes>,
@@ -864,7 +926,7 @@ impl Exec {
             "waited_in_vain": self.hung.as_ref().map(|h| json!({"for": h.what, "after_attempt": h.after_attempt, "played": h.beh.name(), "due_by_ms": r1(h.latest_due_ms), "waited_until_ms": r1(h.waited_until_ms)})),
             "streams_at_healthy_server": self.streams.iter().map(|s| json!({"attempt": s.attempt, "target": format!("{}:{}", s.host, s.port)})).collect::<Vec<_>>(),
             "client_result": self.client_end.as_ref().map(|c| json!({"t_ms": r1(c.t_ms), "class": c.class, "text": c.text})),
-            "local_connections": self.locals.iter().map(|l| json!({"opened_because": l.origin, "request_timed_out_once": l.through_mute, "open_ms": r1(l.open_before_ms), "result": l.result.as_ref().map(|r| format!("{r:?}")), "deadline_hit": l.deadline_hit})).collect::<Vec<_>>(),
+            "local_connections": self.locals.iter().map(|l| json!({"opened_because": l.origin, "tcp_remote": l.remote, "request_timed_out_once": l.through_mute, "open_ms": r1(l.open_before_ms), "result": l.result.as_ref().map(|r| format!("{r:?}")), "deadline_hit": l.deadline_hit})).collect::<Vec<_>>(),
             "silent_periods": self.quiet.iter().map(|q| json!({"after_attempt": q.after_attempt, "after": q.beh.name(), "no_attempt_for_ms": q.silent_ms, "then_local_connection_at_ms": r1(q.nudge_before_ms), "attempt_came_ms_after_it": q.attempt_after_nudge_ms.map(r1)})).collect::<Vec<_>>(),
             "stopped": self.stop,
             "findings": self.keys(),
@@ -878,15 +940,38 @@ struct Ctl {
     lport: u16,
     locals: Vec<LocalConn>,
     listener_seen: Arc<AtomicBool>,
+    /// family L: the local port of the second TCP remote, with its own "has accepted once" flag (the two
+    /// listeners are bound independently of each other)
+    lport2: Option<(u16, Arc<AtomicBool>)>,
 }
 
 impl Ctl {
+    fn new(sh: &Arc<Shared>, lport: u16, lport2: Option<u16>) -> Self {
+        Self { sh: sh.clone(), lport, locals: Vec::new(), listener_seen: Arc::new(AtomicBool::new(false)), lport2: lport2.map(|p| (p, Arc::new(AtomicBool::new(false)))) }
+    }
     fn open(&mut self, origin: &'static str) -> f64 {
+        self.open_on(0, origin)
+    }
+    /// a local connection to the first (0) or the second (1) TCP remote
+    fn open_on(&mut self, remote: usize, origin: &'static str) -> f64 {
         let idx = self.locals.len();
-        let lc = open_local(self.lport, origin, idx, self.listener_seen.clone(), &self.sh);
+        let (port, seen) = match (&self.lport2, remote) {
+            (Some((p, seen)), 1) => (*p, seen.clone()),
+            _ => (self.lport, self.listener_seen.clone()),
+        };
+        let mut lc = open_local(port, origin, idx, seen, &self.sh);
+        lc.remote = remote;
         let t = lc.open_before_ms;
         self.locals.push(lc);
         t
+    }
+    /// family L: k local connections at once (k = 2: one per remote; k = 3: two on the first remote, one on the
+    /// second), each with its own payload
+    fn open_several(&mut self, k: usize) {
+        let plan: &[usize] = if k >= 3 { &[0, 1, 0] } else { &[0, 1] };
+        for &r in plan {
+            self.open_on(r, "several");
+        }
     }
     /// At the healthy connection: everything pending must be served, then a fresh connection too.
     async fn verify_locals(&mut self) {
@@ -897,13 +982,20 @@ impl Ctl {
         if let Some(l) = self.locals.last_mut() {
             l.settle(LONG_WAIT_MS).await;
         }
+        if self.lport2.is_some() {
+            // ... on the second remote as well
+            self.open_on(1, "probe");
+            if let Some(l) = self.locals.last_mut() {
+                l.settle(LONG_WAIT_MS).await;
+            }
+        }
     }
     async fn finish(mut self, ex: &mut Exec) {
         for l in &mut self.locals {
             l.peek().await;
             l.task.abort();
         }
-        ex.locals = self.locals.iter().map(|l| LocalSummary { origin: l.origin, through_mute: l.through_mute, open_before_ms: l.open_before_ms, result: l.result.clone(), deadline_hit: l.deadline_hit }).collect();
+        ex.locals = self.locals.iter().map(|l| LocalSummary { origin: l.origin, remote: l.remote, through_mute: l.through_mute, open_before_ms: l.open_before_ms, result: l.result.clone(), deadline_hit: l.deadline_hit }).collect();
         self.sh.read(|l| {
             ex.attempts = l.attempts.clone();
             ex.streams = l.streams.clone();
@@ -938,6 +1030,18 @@ async fn exec_script(sc: &Scenario, iso: bool) -> Exec {
         ex.machinery = Some("no free port".into());
         return ex;
     };
+    // family L: a second TCP remote on a port of its own
+    let lport2 = if sc.several > 0 {
+        match (0..16).filter_map(|_| free_port().ok()).find(|&p| p != lport && p != sport) {
+            Some(p) => Some(p),
+            None => {
+                ex.machinery = Some("no free port for the second TCP remote".into());
+                return ex;
+            }
+        }
+    } else {
+        None
+    };
     let sh = Shared::new();
     sh.abortive.store(sc.abortive, std::sync::atomic::Ordering::SeqCst);
     let server = tokio::spawn(serve(listener, sc.script.clone(), sh.clone()));
@@ -947,8 +1051,8 @@ async fn exec_script(sc: &Scenario, iso: bool) -> Exec {
         ex.machinery = Some("no free UDP port".into());
         return ex;
     }
-    let client = spawn_client(sc.client_cfg(sport, lport, uport), sh.clone());
-    let mut ctl = Ctl { sh: sh.clone(), lport, locals: Vec::new(), listener_seen: Arc::new(AtomicBool::new(false)) };
+    let client = spawn_client(net::ClientCfg { lport2, ..sc.client_cfg(sport, lport, uport) }, sh.clone());
+    let mut ctl = Ctl::new(&sh, lport, lport2);
     let len = sc.script.len();
 
     for j in 0..len {
@@ -1041,6 +1145,11 @@ async fn exec_script(sc: &Scenario, iso: bool) -> Exec {
                 }
             }
             _ => {}
+        }
+        if j == 0 && sc.several > 0 {
+            // family L: the tunnel is down (`reset`: the attempt has just failed, the client is in its back-off;
+            // `stall`: the attempt is stuck in the handshake): k local connections at once, each with its own payload
+            ctl.open_several(sc.several);
         }
         if j == 0 {
             if let (Some(up), n @ 1..) = (uport, sc.udp_flood) {
@@ -1172,7 +1281,7 @@ async fn exec_script(sc: &Scenario, iso: bool) -> Exec {
     server.abort();
     client.abort();
     if ex.client_end.as_ref().is_some_and(addr_in_use) {
-        ex.machinery = Some(format!("the local port {lport} was taken by someone else"));
+        ex.machinery = Some(format!("the local port {lport}{} was taken by someone else", lport2.map_or(String::new(), |p| format!(" or {p}"))));
     }
     if ex.machinery.is_none() {
         judge_script(&mut ex, &steps);
@@ -1384,6 +1493,10 @@ fn judge_script(ex: &mut Exec, steps: &[Step]) {
     // ---- local connections (only where the statement promises service: the healthy connection was reached)
     if ex.completed && steps[len - 1].end == Some(End::Stays) && end.is_none() {
         judge_locals(ex, &ctx);
+    } else if sc.several > 0 {
+        // family L: the healthy connection was not reached with the client still running (it ended early, see above):
+        // a local connection that the client accepted while the tunnel was down and then closed is lost all the same
+        judge_several_lost(ex, &ctx);
     }
 
     // ---- gaps between attempts
@@ -1467,11 +1580,69 @@ fn judge_script(ex: &mut Exec, steps: &[Step]) {
     }
 }
 
+/// Family L: the class (for the keys) of the way the connections failed while several stream requests were queued:
+/// that of the first behaviour after the down phase.
+fn several_class(sc: &Scenario) -> &'static str {
+    sc.script.get(1).or(sc.script.first()).map_or("start", |b| b.class())
+}
+
+fn several_lost(ex: &mut Exec, l: &LocalSummary, k: usize, ctx: &str) {
+    let sc = ex.sc.clone();
+    if let Some(LocalRes::Closed { connected_ms, closed_ms, got, err }) = &l.result {
+        let hs = ex.attempts.get(1).and_then(|a| a.hs_done_ms);
+        ex.find(
+            format!("pending.several.lost.after-{}", several_class(&sc)),
+            format!(
+                "{} local connections were made at once to the client's two TCP remotes while the tunnel was down; connection {k} (remote {}, made at {connected_ms:.0} ms{}) was closed by the client at {closed_ms:.0} ms ({err}) after {got} echoed bytes instead of being served by the next healthy connection; client: {}; {ctx}",
+                sc.several,
+                l.remote,
+                hs.map_or(String::new(), |t| format!(", the next connection's handshake completed at {t:.0} ms")),
+                ex.client_end_at_finish.as_ref().map_or("still running".to_string(), |c| format!("ended with {} [{}] at {:.0} ms", c.class, c.text, c.t_ms)),
+            ),
+            false,
+        );
+    }
+}
+
+/// Family L when the healthy connection was not reached with the client running: only what the client closed counts.
+fn judge_several_lost(ex: &mut Exec, ctx: &str) {
+    for (k, l) in ex.locals.clone().iter().enumerate() {
+        if l.origin == "several" {
+            several_lost(ex, l, k, ctx);
+        }
+    }
+}
+
 fn judge_locals(ex: &mut Exec, ctx: &str) {
     let locals = ex.locals.clone();
     let mut echoed = 0usize;
-    for l in &locals {
+    for (k, l) in locals.iter().enumerate() {
         let mode = format!("opened-{}{}", l.origin, if l.through_mute { ".request-timed-out" } else { "" });
+        // family L: the k connections that were pending at once have their own keys
+        if ex.sc.several > 0 && l.origin == "several" {
+            match &l.result {
+                Some(LocalRes::Echo { .. }) => echoed += 1,
+                Some(LocalRes::Closed { .. }) => several_lost(ex, l, k, ctx),
+                Some(LocalRes::Corrupt { got_hex, .. }) => ex.find(
+                    "pending.several.crosstalk",
+                    format!("{} local connections were pending at once, each with its own payload; connection {k} (remote {}) got back something else than what it had sent: {got_hex}; {ctx}", ex.sc.several, l.remote),
+                    false,
+                ),
+                Some(LocalRes::Refused { t_ms, err, startup }) => {
+                    if *startup {
+                        ex.find("listener.never-up", format!("the local listener of remote {} refused connections for 20 s after the start ({err}); {ctx}", l.remote), true);
+                    } else {
+                        ex.find("listener.refused", format!("the local listener of remote {} refused a connection at {t_ms:.0} ms ({err}) although it had accepted one before; {ctx}", l.remote), false);
+                    }
+                }
+                None => ex.find(
+                    format!("pending.several.not-served.after-{}", several_class(&ex.sc)),
+                    format!("{} local connections were pending at once; connection {k} (remote {}, opened at {:.0} ms) was neither served nor closed within {LONG_WAIT_MS} ms of the healthy connection; {ctx}", ex.sc.several, l.remote, l.open_before_ms),
+                    true,
+                ),
+            }
+            continue;
+        }
         match (&l.result, l.deadline_hit) {
             (Some(LocalRes::Echo { .. }), _) => echoed += 1,
             (Some(LocalRes::Refused { t_ms, err, startup }), _) => {
@@ -1549,7 +1720,7 @@ async fn exec_outage(sc: &Scenario, iso: bool) -> Exec {
     };
     let sh = Shared::new();
     let client = spawn_client(sc.client_cfg(sport, lport, None), sh.clone());
-    let mut ctl = Ctl { sh: sh.clone(), lport, locals: Vec::new(), listener_seen: Arc::new(AtomicBool::new(false)) };
+    let mut ctl = Ctl::new(&sh, lport, None);
     tokio::time::sleep(Duration::from_millis(sc.outage_ms / 2)).await;
     if sc.down_at.is_some() {
         ctl.open("down");
@@ -1695,7 +1866,7 @@ fn replay(args: &Args, v: &Value, mut rep: Report) -> Report {
 #[allow(clippy::too_many_lines)]
 pub fn run(args: &Args) -> Report {
     let mut rep = Report::new("C19", &args.tier, "e2e", "exploration");
-    rep.rule = "one execution of the real client_main_inner per point of the scenario matrix (server-behaviour script x max_retry_count x max_retry_interval x local-connection placement; for the silent-server scripts x keepalive interval/timeout or keepalive off; for the stalled-TLS-handshake scripts wss:// x handshake timeout; for the cut-TLS-handshake scripts wss:// x cut by FIN or by TCP reset x ending by give-up, open-ended or at a healthy wss:// server; for the invalid-frame scripts the bad message unprompted or in answer to a pending stream request), every point executed; a point is non-trivial/distinct when its scenario record is distinct; a finding counts only when a scenario that showed it in the parallel pass shows it again when run alone on the machine (one scenario per key is re-run, smallest first)".into();
+    rep.rule = "one execution of the real client_main_inner per point of the scenario matrix (server-behaviour script x max_retry_count x max_retry_interval x local-connection placement; for the silent-server scripts x keepalive interval/timeout or keepalive off; for the stalled-TLS-handshake scripts wss:// x handshake timeout; for the cut-TLS-handshake scripts wss:// x cut by FIN or by TCP reset x ending by give-up, open-ended or at a healthy wss:// server; for the invalid-frame scripts the bad message unprompted or in answer to a pending stream request; for the several-pending scripts two TCP remotes x 2 or 3 local connections at once during the first outage), every point executed; a point is non-trivial/distinct when its scenario record is distinct; a finding counts only when a scenario that showed it in the parallel pass shows it again when run alone on the machine (one scenario per key is re-run, smallest first)".into();
     std::panic::set_hook(Box::new(|_| {}));
     // families F and K make the client build a TLS configuration (only `tls-healthy` completes a TLS handshake)
     rusty_penguin_lib::tls::init_crypto_provider();
@@ -1801,7 +1972,7 @@ pub fn run(args: &Args) -> Report {
     rep.bounds.insert("scenarios".into(), json!(matrix.len()));
     rep.bounds.insert("scenarios_per_family".into(), json!(fam));
     rep.bounds.insert("script_len_max".into(), json!({"families_A_B": bounds.len, "give_up_by_preconnect_failures_only": bounds.len + 1, "family_C": if thorough { 5 } else { 4 }}));
-    rep.bounds.insert("behaviours".into(), json!(["reset", "stall", "http404", "close0", "close300", "drop", "mute", "healthy", "silent (family E)", "tls-stall (family F)", "close-hold (family G)", "garbage, garbage-reply (family H)", "tls-cut, tls-reset, tls-healthy (family K)", "(really refusing port: family D)"]));
+    rep.bounds.insert("behaviours".into(), json!(["reset", "stall", "http404", "close0", "close300", "drop", "mute", "healthy", "silent (family E)", "tls-stall (family F)", "close-hold (family G)", "garbage, garbage-reply (family H)", "tls-cut, tls-reset, tls-healthy (family K)", "(really refusing port: family D)", "(family L: reset | stall, then mute | close0 | close300 | drop once or twice, then healthy -- with two TCP remotes and 2 or 3 local connections pending at once)"]));
     rep.bounds.insert("max_retry_count".into(), json!(bounds.counts));
     rep.bounds.insert("max_retry_interval_ms".into(), json!(bounds.caps));
     rep.bounds.insert("handshake_timeout_ms".into(), json!(matrix.iter().map(|s| s.hs_ms).collect::<std::collections::BTreeSet<_>>()));
@@ -1818,6 +1989,19 @@ pub fn run(args: &Args) -> Report {
             "cuts_in_a_row_max": matrix.iter().filter(|s| s.family == "K-tls-handshake-cut").map(|s| s.script.iter().filter(|b| matches!(b, Beh::TlsCut | Beh::TlsReset)).count()).max(),
             "handshake_timeout_ms": TLS_CUT_HS_TIMEOUT_MS,
             "open_ended_scripts_watch_the_client_after_the_last_cut_for_ms": OPEN_END_WATCH_MS,
+        }),
+    );
+    let in_l = |s: &&Scenario| s.family == "L-several-pending-local";
+    rep.bounds.insert(
+        "family_L_several_pending_local".into(),
+        json!({
+            "client": "two TCP remotes (two local ports on 127.0.0.1, both forwarded to the same target), max_retry_count 0, max_retry_interval 300 ms",
+            "local_connections_pending_at_once": matrix.iter().filter(in_l).map(|s| s.several).collect::<std::collections::BTreeSet<_>>(),
+            "placement": "k = 2: one per remote; k = 3: two on the first remote, one on the second; all opened at once while the first attempt is failing (stall) / has just failed (reset), each sending its own payload at once",
+            "scripts": if thorough { "complete: [reset | stall] ++ [mute | close0 | close300 | drop]{1..2} ++ [healthy], each with k = 2 and k = 3" } else { "a selection of [reset | stall] ++ [mute | close0 | close300 | drop]{1..2} ++ [healthy] with k = 2 or 3 (the thorough tier runs the complete product)" },
+            "failing_connections_in_a_row_max": matrix.iter().filter(in_l).map(|s| s.script.len().saturating_sub(2)).max(),
+            "scripts_left_out_because_lossy_by_design": 0,
+            "each_local_connection_waited_for_ms": LONG_WAIT_MS,
         }),
     );
     rep.bounds.insert("channel_timeout_ms".into(), json!(CH_TIMEOUT_MS));
@@ -1877,6 +2061,23 @@ pub fn run(args: &Args) -> Report {
         "tls_handshakes_cut".into(),
         json!({"client_hellos_read_then_closed_with_fin": hellos_fin, "client_hellos_read_then_reset": hellos_rst, "attempts_that_followed_a_cut": k_retries, "give_ups_after_cuts": k_giveups, "open_ended_scripts_with_the_client_still_running": k_open, "scripts_served_by_the_healthy_wss_server_after_cuts": k_served, "client_results": k_last_errors}),
     );
+    // family L
+    let in_l = |e: &&Exec| e.sc.several > 0;
+    let l_pending = |e: &Exec| e.locals.iter().filter(|l| l.origin == "several").cloned().collect::<Vec<_>>();
+    let l_all_echoed = execs.iter().filter(in_l).filter(|e| e.completed && e.client_end_at_finish.is_none() && l_pending(e).len() == e.sc.several && l_pending(e).iter().all(|l| matches!(l.result, Some(LocalRes::Echo { .. })))).count();
+    let l_echoes: usize = execs.iter().filter(in_l).map(|e| l_pending(e).iter().filter(|l| matches!(l.result, Some(LocalRes::Echo { .. }))).count()).sum();
+    // all k connections were made (TCP connect returned) before the handshake of the second attempt completed, i.e.
+    // while the tunnel was down: their stream requests were waiting when the failing connection came up
+    let l_all_before_up = execs.iter().filter(in_l).filter(|e| {
+        let up = e.attempts.get(1).and_then(|a| a.hs_done_ms);
+        let p = l_pending(e);
+        p.len() == e.sc.several && p.iter().all(|l| matches!((&l.result, up), (Some(LocalRes::Echo { connected_ms, .. }), Some(up)) if *connected_ms < up))
+    }).count();
+    let l_both_remotes = execs.iter().filter(in_l).filter(|e| [0usize, 1].iter().all(|r| l_pending(e).iter().any(|l| l.remote == *r && matches!(l.result, Some(LocalRes::Echo { .. }))))).count();
+    rep.extra.insert(
+        "several_pending_local_connections".into(),
+        json!({"scenarios": execs.iter().filter(in_l).count(), "scenarios_with_every_pending_connection_echoed_and_the_client_still_running": l_all_echoed, "pending_connections_echoed": l_echoes, "scenarios_with_every_connection_made_before_the_failing_connection_came_up": l_all_before_up, "scenarios_with_an_echo_on_both_remotes": l_both_remotes}),
+    );
     rep.extra.insert("suspicions".into(), json!(suspects.iter().map(|(k, v)| (k.clone(), v.len())).collect::<BTreeMap<_, _>>()));
     rep.extra.insert("suspicions_confirmed_alone".into(), json!(confirmed.keys().collect::<Vec<_>>()));
     rep.extra.insert("suspicions_not_reproduced_alone".into(), json!(refuted.len()));
@@ -1886,7 +2087,7 @@ pub fn run(args: &Args) -> Report {
     for (_, (_, iso)) in confirmed.iter().take(2) {
         rep.sample(iso.observation());
     }
-    for want in ["K-tls-handshake-cut", "H-invalid-frame", "G-close-hold", "E-keepalive", "F-tls-handshake", "C-reset-after-success", "B-pending-local", "A-counts-delays", "D-refused"] {
+    for want in ["L-several-pending-local", "K-tls-handshake-cut", "H-invalid-frame", "G-close-hold", "E-keepalive", "F-tls-handshake", "C-reset-after-success", "B-pending-local", "A-counts-delays", "D-refused"] {
         if let Some(e) = execs.iter().find(|e| e.sc.family == want && e.findings.is_empty() && e.machinery.is_none()) {
             rep.sample(e.observation());
         }
@@ -1894,10 +2095,11 @@ pub fn run(args: &Args) -> Report {
     rep.assumptions.push("interleavings are whatever the tokio multi-thread runtime and the loopback stack produce; one execution per scenario (re-run once alone for suspicions)".into());
     rep.assumptions.push("the refusal inside scripts is 'accept, then drop before any HTTP' so that attempts can be counted; a port that really refuses (family D) hides the attempts, there only the result and the total time are checked".into());
     rep.assumptions.push("lower bounds on gaps are anchored at server-side timestamps taken before the failure was caused (tolerance 2 ms); upper bounds are 3x the due delay + 1 s".into());
-    rep.assumptions.push("handshake_timeout = channel_timeout = 1 s, keepalive off, ws:// (families A-D), one TCP remote on 127.0.0.1; the back-off generator itself is checked exhaustively by the vmux half of C19".into());
+    rep.assumptions.push("handshake_timeout = channel_timeout = 1 s, keepalive off, ws:// (families A-D), one TCP remote on 127.0.0.1 (two in family L); the back-off generator itself is checked exhaustively by the vmux half of C19".into());
     rep.assumptions.push(format!("families E (silent server; keepalive on/off) and F (wss:// with --tls-skip-verify, the server never speaks TLS; handshake timeout {TLS_HS_TIMEOUT_MS} ms in the quick tier) run in real time: an attempt counts as too early only {WIDE_TOL_LO_MS} ms before its earliest due time (last Pong + T + delay / earliest start + handshake timeout + delay), as too late only {WIDE_TOL_UP_MS} ms after its latest due time (last Pong + T + I + delay / accept + handshake timeout + delay), as never coming {HANG_EXTRA_MS} ms after the latter"));
 
     rep.assumptions.push(format!("family K (wss:// with --tls-skip-verify): the cut comes after the server has read the whole ClientHello record and before it has written anything; the lower bound of the gap after a cut is anchored at a timestamp the server took between the two (tolerance {TOL_MS} ms), the upper bound and everything else are those of `reset`; the handshake timeout is {TLS_CUT_HS_TIMEOUT_MS} ms so that it does not fire first; the healthy wss:// server presents a self-signed certificate for 127.0.0.1"));
+    rep.assumptions.push(format!("family L (two TCP remotes, 2 or 3 local connections at once while the tunnel is down): a listener of the client has one stream request outstanding at a time, so with two remotes two requests wait in the client's queue when the next connection comes up (a third connection waits in the first listener's backlog); whether they are in the queue at the very moment the main loop looks is up to the scheduler (the connections are made {BASE_MS} ms or more before that connection is attempted); nothing is asserted about time except that each connection has its echo within {LONG_WAIT_MS} ms of the healthy connection"));
     rep.assumptions.push(format!("family H: the non-retryable error after the handshake is penguin_mux::Error::InvalidFrame, caused by one binary message of {} octets 0xff; the server keeps the TCP connection open and plays the same on every further connection; 'at once' is judged as for http404 (the client ends within 1 s of the bad message, and no further connection attempt is made)", net::GARBAGE.len()));
 
     // ---- vacuity guard
@@ -1914,6 +2116,8 @@ pub fn run(args: &Args) -> Report {
         rep.machinery_error = Some(format!("degenerate run: invalid frames sent unprompted {bad_sent}, in answer to a stream request {bad_replies} -- each must be > 0"));
     } else if confirmed.is_empty() && (n_inv == 0 || inv_pending == 0) {
         rep.machinery_error = Some(format!("degenerate run: clients ended by the invalid frame {n_inv}, of these with a stream request pending {inv_pending} -- each must be > 0 when nothing was found"));
+    } else if confirmed.is_empty() && (l_all_echoed == 0 || l_both_remotes == 0 || l_all_before_up == 0) {
+        rep.machinery_error = Some(format!("degenerate run: family L scenarios with every pending connection echoed {l_all_echoed}, with an echo on both remotes {l_both_remotes}, with every connection made while the tunnel was down {l_all_before_up} -- each must be > 0 when nothing was found"));
     } else if hellos_fin == 0 || hellos_rst == 0 {
         rep.machinery_error = Some(format!("degenerate run: TLS ClientHellos (first octet 0x16) read before a cut by FIN {hellos_fin}, before a cut by reset {hellos_rst} -- each must be > 0"));
     } else if confirmed.is_empty() && (k_retries == 0 || k_giveups == 0 || k_open == 0 || k_served == 0) {
